@@ -38,6 +38,14 @@ func checkWorldFiles(w *World, o fileOpts, indexedKeys []string, out *[]Finding,
 		byRaw[string(w.Rows[i].Raw)] = append(byRaw[string(w.Rows[i].Raw)], &w.Rows[i])
 	}
 	var allRaw []string
+	// results of the public read helpers are kept while further helper calls and queries run
+	// (value semantics: what a helper returned must stay what was written)
+	type kept struct {
+		what string
+		got  []byte // as returned by the helper (not copied)
+		want []byte
+	}
+	var retained []kept
 	for _, ptr := range w.Meta.Pointers() {
 		data, ok := w.Data.Bytes(ptr)
 		if !ok {
@@ -141,6 +149,7 @@ func checkWorldFiles(w *World, o fileOpts, indexedKeys []string, out *[]Finding,
 				} else if !bytes.Equal(rd, pb.RowData) {
 					*out = append(*out, fnd("c17-helper-rowdata-differs", "C17: ReadDataBlockRowData(%s block %d) differs from the independently decoded row data", ptr, i))
 				} else {
+					retained = append(retained, kept{fmt.Sprintf("ReadDataBlockRowData(%s block %d)", ptr, i), rd, pb.RowData})
 					sc := bs.NewBlockRowScanner(rd)
 					n := 0
 					for {
@@ -152,6 +161,7 @@ func checkWorldFiles(w *World, o fileOpts, indexedKeys []string, out *[]Finding,
 							*out = append(*out, fnd("c17-scanner-differs", "C17: BlockRowScanner row %d of %s block %d differs", n, ptr, i))
 							break
 						}
+						retained = append(retained, kept{fmt.Sprintf("BlockRowScanner row %d of %s block %d", n, ptr, i), rb, pb.Rows[n]})
 						n++
 					}
 					if n != len(pb.Rows) {
@@ -235,6 +245,29 @@ func checkWorldFiles(w *World, o fileOpts, indexedKeys []string, out *[]Finding,
 			*out = append(*out, fnd("c17-file-entry-counts", "C17: %s file BloomEntryCounts=%+v, its rows hold %d/%d/%d", ptr, pf.Meta.BloomEntryCounts, len(fileF), len(fileT), len(fileFT)))
 		}
 	}
+	if o.c17 && len(retained) > 0 {
+		// disturbance: queries (pooled scan buffers) and a second round of helper reads
+		tx := bs.Token("x")
+		for _, q := range []*bs.Query{{}, {Bloom: &bs.BloomQuery{Expression: &tx}}, {}} {
+			w.Query(q)
+		}
+		for _, ptr := range w.Meta.Pointers() {
+			data, _ := w.Data.Bytes(ptr)
+			md, _, err := bs.ReadFileMetadata(bytes.NewReader(data))
+			if err != nil {
+				continue
+			}
+			for i := range md.DataBlocks {
+				bs.ReadDataBlockRowData(bytes.NewReader(data), &md.DataBlocks[i])
+			}
+		}
+		for _, k := range retained {
+			if !bytes.Equal(k.got, k.want) {
+				*out = append(*out, fnd("c17-helper-result-not-stable", "C17: the result of %s equalled the written bytes when it was returned but changed after later helper calls and queries (it aliases a reused buffer)", k.what))
+				break
+			}
+		}
+	}
 	if o.c17 {
 		var want []string
 		for i := range w.Rows {
@@ -266,7 +299,7 @@ func fileCases(tier string, o fileOpts) []Case {
 			if lay.name == "external-writer" || lay.name == "external-writer-bigpad" {
 				continue
 			}
-			if tier == "quick" && ti > 0 && li != ti%3 {
+			if tier == "quick" && ti > 0 && li != ti%3 && lay.name != "chunks9-none-merged-twice" {
 				continue
 			}
 			tk, lay := tk, lay
